@@ -321,15 +321,21 @@ fn validate_nodata_response(
     //   and that the NSEC3 RR that covers the "next closer" name has the Opt-
     //   Out bit set.
     if let Some(query_record) = query_name_record {
-        if query_record.nsec3_data.type_set().contains(query_type)
-            || query_record
-                .nsec3_data
-                .type_set()
-                .contains(RecordType::CNAME)
-        {
+        let types = query_record.nsec3_data.type_set();
+        if types.contains(query_type) || types.contains(RecordType::CNAME) {
             return cx.proof(
                 Proof::Bogus,
                 format_args!("nsec3 type map covers {query_type} or CNAME"),
+            );
+        } else if types.contains(RecordType::NS)
+            && !types.contains(RecordType::SOA)
+            && query_type != RecordType::DS
+        {
+            // RFC 6840 4.1: the NSEC3 record of a delegation point comes from the parent side of
+            // the zone cut; apart from DS, the RRsets at that name belong to the child zone.
+            return cx.proof(
+                Proof::Bogus,
+                "matching record is from the parent side of a zone cut, which only speaks for DS",
             );
         } else {
             return cx.proof(
